@@ -13,7 +13,7 @@ import gen
 import props
 
 V = os.path.dirname(os.path.dirname(os.path.abspath(__file__)))
-REPO = "/repo"
+REPO = os.environ.get("VERIF_REPO", "/repo")
 CACHE = os.path.join(V, ".cache")
 SPEC = os.path.join(V, "spec")
 ASV = os.path.join(V, "harness", "target", "release", "asv")
@@ -337,12 +337,13 @@ def replay(pid, path):
 
 # ----------------------------------------------------------------------------- the check
 
-def non_trivial_stats(files, pid):
-    """Count distinct executions and those non-trivial for the property (measured on the traces)."""
-    rule = props.NONTRIVIAL.get(pid, props.NONTRIVIAL["default"])
-    seen, nontriv, samples = set(), set(), []
+def non_trivial_all(files):
+    """One pass over the traces: distinct executions and, per property, the non-trivial ones (rules in props.NONTRIVIAL)."""
+    seen = set()
+    cnt = {pid: 0 for pid in props.NONTRIVIAL}
+    samples = {pid: [] for pid in props.NONTRIVIAL}
     for p in files:
-        cur, h = [], None
+        cur = []
         with open(p) as f:
             for line in f:
                 if line.startswith('{"e":"begin"'):
@@ -353,15 +354,27 @@ def non_trivial_stats(files, pid):
                     if key not in seen:
                         seen.add(key)
                         evs = [json.loads(l) for l in cur]
-                        if rule[1](evs):
-                            nontriv.add(key)
-                            if len(samples) < 2:
-                                samples.append([e for e in evs if e["e"] != "at"][:40])
+                        for pid, rule in props.NONTRIVIAL.items():
+                            try:
+                                ok = rule[1](evs)
+                            except Exception:
+                                ok = False
+                            if ok:
+                                cnt[pid] += 1
+                                if len(samples[pid]) < 1:
+                                    samples[pid].append([e for e in evs if e["e"] not in ("put", "use")][:40])
                     continue
-                if '"e":"at"' in line:
+                if '"e":"at"' in line or '"e":"put"' in line or '"e":"use"' in line:
                     continue
                 cur.append(line)
-    return len(seen), len(nontriv), rule[0], samples
+    return {"distinct": len(seen), "nontrivial": cnt, "samples": samples}
+
+
+def non_trivial_stats(summ, pid):
+    nt = summ.get("nontrivial", {})
+    key = pid if pid in nt.get("nontrivial", {}) else "default"
+    return (nt.get("distinct", 0), nt.get("nontrivial", {}).get(key, 0), props.NONTRIVIAL.get(key, ("", None))[0],
+            nt.get("samples", {}).get(key, []))
 
 
 def conc_stage(tier, seed, key):
@@ -421,7 +434,8 @@ def conc_stage(tier, seed, key):
                 missed += d["missed"]
                 aligned += d["missed"] == 0
     cov_stats.update({"segments_reached": reached, "segments_missed": missed, "behaviours_fully_aligned": aligned})
-    summary = {"execs": res["execs"], "events": res["events"], "viols": out_v, "files": res["files"], "tlc_replay": cov_stats,
+    nontrivial = non_trivial_all(res["files"])
+    summary = {"execs": res["execs"], "events": res["events"], "viols": out_v, "files": res["files"], "tlc_replay": cov_stats, "nontrivial": nontrivial,
                "wall": time.time() - t0, "fams": {f: n for f, n in plan}, "incidents": res["incidents"]}
     with open(marker, "w") as f:
         json.dump(summary, f)
@@ -490,7 +504,7 @@ def check(pid, tier, seed):
         if spec.get("conc", True):
             summ, wd = conc_stage(tier, seed, key)
             traces = summ["execs"]
-            nt = non_trivial_stats(summ["files"], pid)
+            nt = non_trivial_stats(summ, pid)
             for v in summ["viols"]:
                 if pid in v["prop"].split("+"):
                     viols.append(v)
@@ -502,7 +516,7 @@ def check(pid, tier, seed):
         extra = props.EXTRA.get(pid)
         if extra:
             er = extra(tier, seed, key, sys.modules[__name__])
-            viols += er.get("viols", [])
+            viols += [v for v in er.get("viols", []) if pid in v["prop"].split("+")]
             cov.update({k: v for k, v in er.get("coverage", {}).items() if k not in ("states", "transitions")})
             states += er.get("coverage", {}).get("states", 0)
             trans += er.get("coverage", {}).get("transitions", 0)
